@@ -43,7 +43,23 @@ func nestingConds(b *ssa.BasicBlock) []string {
 // asserted type, calls by callee name.
 func condSym(v ssa.Value) string {
 	switch x := v.(type) {
+	case *ssa.BinOp:
+		// a counted loop's test: do not render the induction variable
+		if x.Op == token.LSS {
+			if ys := core.Sym(x.Y); strings.HasPrefix(ys, "len(") {
+				return "loop(" + ys + ")"
+			}
+		}
+		// comparisons of interface method results: show the receivers
+		if cx, ok := x.X.(*ssa.Call); ok && cx.Call.IsInvoke() {
+			if cy, ok := x.Y.(*ssa.Call); ok && cy.Call.IsInvoke() {
+				return "(" + core.Sym(cx.Call.Value) + "." + cx.Call.Method.Name() + "()" + x.Op.String() + core.Sym(cy.Call.Value) + "." + cy.Call.Method.Name() + "())"
+			}
+		}
 	case *ssa.Extract:
+		if _, ok := x.Tuple.(*ssa.Next); ok && x.Index == 0 {
+			return "next"
+		}
 		if ta, ok := x.Tuple.(*ssa.TypeAssert); ok && x.Index == 1 {
 			return "is(" + core.TypeLabel(ta.AssertedType) + ")"
 		}
